@@ -179,6 +179,10 @@ def run_case(case):
         doc = fields.pack_doc(case["cases"])
         label = "fields|" + ";".join(fields.describe(c) for c in case["cases"])
         r = check_project(doc)
+    elif k == "colliding":
+        doc = c01.colliding_doc(case["names"])
+        label = "colliding-schemas|" + ",".join(case["names"])
+        r = check_project(doc)
     elif k == "tag":
         doc = c01.tag_doc(case["tag"])
         label = f"tag|{case['tag']!r}"
